@@ -141,7 +141,7 @@ func action(t *rapid.T, level spec.Level, depth int, defs *[]string) string {
 		}
 		return Body(t, level, depth-1, defs)
 	}
-	switch rapid.IntRange(0, 19).Draw(t, "actkind") {
+	switch rapid.IntRange(0, 27).Draw(t, "actkind") {
 	case 0, 1, 2, 3, 4, 5, 6:
 		return open + pipeline(t, level, 1) + cls
 	case 7:
@@ -169,6 +169,54 @@ func action(t *rapid.T, level spec.Level, depth int, defs *[]string) string {
 		return "{{define \"" + name + "\"}}" + literal(t) + "{{" + rapid.SampledFrom([]string{".", ".Vector", "len .", ".AVName"}).Draw(t, "defbody") + "}}{{end}}" + open + "template \"" + name + "\" " + rapid.SampledFrom([]string{".", ".Vector", ".AVName"}).Draw(t, "tplarg") + cls + Body(t, level, 0, &none)
 	case 14:
 		return "{{block \"" + rapid.SampledFrom([]string{"blk", "blk2"}).Draw(t, "blockname") + "\" .}}" + literal(t) + "{{.Version}}{{end}}"
+	case 16: // else-if chains, with / range with else
+		return rapid.SampledFrom([]string{
+			"{{if eq .Version \"3.0\"}}a{{else if eq .Version \"3.1\"}}b{{else}}c{{end}}",
+			"{{if .Nope}}a{{else if .Vector}}b{{end}}",
+			"{{if not .Vector}}a{{else if .Vector}}" + open + fieldRef(t, level) + cls + "{{else}}c{{end}}",
+			"{{with .Vector}}[{{.}}]{{else}}none{{end}}",
+			"{{with \"\"}}x{{else}}" + open + fieldRef(t, level) + cls + "{{end}}",
+			"{{with $v := .Version}}{{$v}}{{.}}{{end}}",
+			"{{range \"\"}}x{{else}}empty{{end}}",
+			"{{range .Nope}}x{{else}}empty{{end}}",
+		}).Draw(t, "chain")
+	case 17: // range forms: two variables, break / continue, ranges that fail at execution
+		return rapid.SampledFrom([]string{
+			"{{range $i, $c := .Version}}{{$i}}={{$c}};{{end}}",
+			"{{range $i, $c := .Vector}}{{if eq $i 3}}{{break}}{{end}}{{$c}}{{end}}",
+			"{{range $i, $c := .Version}}{{if eq $i 1}}{{continue}}{{end}}{{$i}}{{end}}",
+			"{{range $i := .Version}}{{$i}}{{end}}",
+			"{{range slice .Vector 0 4}}{{.}}{{end}}",
+			"{{range 3}}{{.}}{{end}}",
+			"{{range $k, $v := 2}}{{$k}}{{$v}}{{end}}",
+		}).Draw(t, "rangeform")
+	case 18: // variables across scopes
+		return rapid.SampledFrom([]string{
+			"{{$x := .Version}}{{if .Vector}}{{$x = \"changed\"}}{{end}}{{$x}}",
+			"{{$x := 1}}{{with .Vector}}{{$x := 2}}{{$x}}{{end}}{{$x}}",
+			"{{$x := .Vector}}{{range .Version}}{{$x = .}}{{end}}{{$x}}",
+			"{{if .Vector}}{{$y := 1}}{{end}}{{$y}}",
+			"{{$ := 1}}{{$}}",
+			"{{$x := .Version}}{{template \"missing\" $x}}",
+		}).Draw(t, "varscope")
+	case 19: // output first, failure later (nothing of the partial output may come back)
+		return literal(t) + open + fieldRef(t, level) + cls + rapid.SampledFrom([]string{
+			"{{index .Vector 100000}}", "{{slice .Vector 5 2}}", "{{.Version.Nope}}", "{{template \"missing\" .}}", "{{len 3}}", "{{printf \"%d\" .Vector | len | index .Vector}}",
+			"{{if .Vector}}{{template \"missing\"}}{{end}}", "{{if .Nope}}{{template \"missing\"}}{{end}}ok", "{{range .Version}}{{index $.Vector 99999}}{{end}}", "{{call .Vector}}", "{{eq .Vector 1}}", "{{lt .Version 3}}",
+		}).Draw(t, "latefailure")
+	case 20: // nested and late definitions, methods of the report
+		return rapid.SampledFrom([]string{
+			"{{define \"outer\"}}<{{template \"inner\" .}}>{{end}}{{define \"inner\"}}({{.}}){{end}}{{template \"outer\" .Version}}",
+			"{{template \"late\" .Vector}}{{define \"late\"}}[{{.}}]{{end}}",
+			"{{define \"d\"}}{{define \"e\"}}x{{end}}{{end}}",
+			"{{block \"b\" .Version}}{{block \"c\" .}}{{.}}{{end}}{{end}}",
+			"{{define \"a\"}}1{{end}}{{define \"a\"}}2{{end}}{{template \"a\"}}",
+			"{{define \"Repost\"}}shadow{{end}}",
+			"{{.ExportWithString \"[{{.Version}}]\"}}",
+			"{{.ExportWithString \"{{\"}}",
+			"{{.ExportWithString}}",
+			"{{.BaseReport.ExportWithString \"x\"}}",
+		}).Draw(t, "nesting")
 	case 15: // invalid structure
 		return rapid.SampledFrom([]string{"{{", "}}{{", "{{end}}", "{{else}}", "{{if}}", "{{if .Vector}}", "{{range}}", "{{template \"missing\"}}", "{{define \"a\"}}", "{{ .Vector", "{{.Vector}", "{{\"unterminated}}", "{{break}}", "{{$}}", "{{.Vector}}{{end}}", "{{with}}{{end}}",
 			// calls of templates this text does not define (another export may have defined them)
